@@ -44,8 +44,33 @@ def canon_events(evs):
 class Run:
     """one observer on one scratch universe"""
 
-    def __init__(self, recursive=True, full=False, as_bytes=False, root_spelling=None):
+    def __init__(self, recursive=True, full=False, as_bytes=False, root_spelling=None, small_reads=False, vanish_at=None):
+        from watchdog.observers import inotify_c
         from watchdog.observers.inotify import InotifyObserver
+
+        # (a) how the kernel buffer is split between reads: with a 48-byte buffer every read returns one record
+        #     (names up to 32 bytes); the default of a keyword-only parameter is mutable - no source change
+        self._kwd = inotify_c.Inotify.read_events.__kwdefaults__
+        self._old_size = self._kwd["event_buffer_size"]
+        if small_reads:
+            self._kwd["event_buffer_size"] = 48
+        # (b) a transient fault: the directory the library is about to watch vanishes just before the k-th
+        #     follow-up inotify_add_watch (another process removed it) - substituted module-level name
+        self._ic = inotify_c
+        self._real_add_watch = inotify_c.inotify_add_watch
+        self.add_calls = 0
+        self.vanished = []
+        if vanish_at is not None:
+            def add_watch(fd, path, mask, _real=self._real_add_watch):
+                if self.started:
+                    self.add_calls += 1
+                    pth = os.fsdecode(path)
+                    if self.add_calls == vanish_at and pth != self.uni.p("W") and os.path.isdir(pth):
+                        import shutil
+                        shutil.rmtree(pth, ignore_errors=True)
+                        self.vanished.append(self.uni.rel(pth))
+                return _real(fd, path, mask)
+            inotify_c.inotify_add_watch = add_watch
 
         self.uni = fsops.Universe(as_bytes=as_bytes)
         self.recursive, self.full = recursive, full
@@ -93,25 +118,68 @@ class Run:
             evs.append((type(e).__name__, s, d, bool(e.is_synthetic)))
         return applied, evs
 
+    def reader_lock(self):
+        """the lock of the Inotify instance behind the (only) emitter: while we hold it the reader cannot process
+        what it reads - the reader lags behind the operations by exactly the burst"""
+        deadline = time.monotonic() + 5
+        while time.monotonic() < deadline:
+            for em in list(self.obs.emitters):
+                buf = getattr(em, "_inotify", None)
+                ino = getattr(buf, "_inotify", None) if buf is not None else None
+                if ino is not None:
+                    return ino._lock
+            time.sleep(0.005)
+        raise RuntimeError("emitter did not come up")
+
+    def burst(self, ops):
+        """apply the operations back to back while the reader is held off, then let the stream drain"""
+        start = len(self.rec.events)
+        applied = []
+        with self.reader_lock():
+            for op in ops:
+                if self.uni.apply(op):
+                    applied.append(op)
+        ok = True
+        if self.root_exists():
+            ok = fsops.drain(self.uni, self.rec, timeout=8.0) and fsops.drain(self.uni, self.rec, timeout=8.0)
+        evs = []
+        for e in self.rec.events[start:]:
+            s, d = self.uni.rel(e.src_path), self.uni.rel(e.dest_path)
+            if "__sentinel" in s or "__sentinel" in d:
+                continue
+            evs.append((type(e).__name__, s, d, bool(e.is_synthetic)))
+        return applied, (evs if ok else None)
+
     def stop(self):
         try:
             self.obs.stop()
             self.obs.join(5)
         finally:
             threading.excepthook = self._old_hook
+            self._kwd["event_buffer_size"] = self._old_size
+            self._ic.inotify_add_watch = self._real_add_watch
             self.uni.cleanup()
 
 
-def run_history(init_ops, ops, recursive=True, full=False, as_bytes=False, probes=False):
-    """returns dict(line, applied ops, per-op events, final tree, thread errors, raw events, probe results)"""
-    r = Run(recursive, full, as_bytes)
+def run_history(init_ops, ops, recursive=True, full=False, as_bytes=False, probes=False, small_reads=False, split=None):
+    """returns dict(line, applied ops, per-op events, final tree, thread errors, raw events, probe results);
+    `split`: per operation, whether the reader gets the kernel buffer one record per read (None: `small_reads` for all)"""
+    r = Run(recursive, full, as_bytes, small_reads=small_reads)
     try:
         init_applied = [op for op in init_ops if r.uni.apply(op)]
         initial_tree = r.uni.tree("W")
         r.start()
         applied, per_op = [], []
         timeout = False
-        for op in ops:
+        for i_op, op in enumerate(ops):
+            if split is not None:
+                want = 48 if split[i_op % len(split)] else r._old_size
+                if r._kwd["event_buffer_size"] != want:
+                    r._kwd["event_buffer_size"] = want
+                    # the reader is blocked inside a read_events() call that was entered with the old size: one
+                    # sentinel round makes it come back and enter the next call with the new one
+                    if r.root_exists():
+                        fsops.drain(r.uni, r.rec, timeout=8.0)
             ok, evs = r.step(op)
             if evs is None:
                 timeout = True
@@ -306,6 +374,14 @@ def tree_after(tree, ops):
 
 
 FIXED = [
+    # a directory with a sub-directory renamed twice, then a change in the sub-directory (re-keying of descendants)
+    ([("mkdir", "W/d"), ("mkdir", "W/d/dd"), ("mkdir", "W/d/dd/d")],
+     [("rename", "W/d", "W/a"), ("rename", "W/a", "W/b"), ("create", "W/b/dd/a"), ("rename", "W/b/dd", "W/dd"), ("rename", "W/b", "W/d"),
+      ("create", "W/dd/d/b"), ("create", "W/d/b")]),
+    # the old name of a renamed directory re-used by a file which is then renamed (stale path-map keys)
+    ([("mkdir", "W/d"), ("mkdir", "W/d/dd")],
+     [("rename", "W/d", "W/b"), ("create", "W/d"), ("rename", "W/d", "W/a"), ("create", "W/b/a"), ("create", "W/b/dd/a"),
+      ("unlink", "W/a"), ("mkdir", "W/a"), ("rename", "W/a", "W/dd"), ("create", "W/dd/b")]),
     # D13: a directory that left the tree and came back under another name, then its old parent is renamed
     ([("mkdir", "W/p"), ("mkdir", "W/p/a")],
      [("rename", "W/p/a", "O/a"), ("create", "O/a/z"), ("rename", "O/a", "W/b"), ("rename", "W/p", "W/q"), ("create", "W/b/x")]),
@@ -323,3 +399,112 @@ FIXED = [
     ([], [("mkdir", "W/d"), ("rename", "W/d", "W/dd"), ("create", "W/dd/a"), ("mkdir", "W/dd/d"), ("rename", "W/dd/d", "W/d"),
           ("create", "W/d/b")]),
 ]
+
+
+# ------------------------------------------------------------------ bursts: operations issued faster than the observer drains
+
+def gen_bursts(r, n):
+    """bursts that respect the property's pacing condition: file operations without limit; a directory is created
+    as part of a nested burst (mkdir -p with files), created and immediately renamed, or renamed again right after
+    it arrived; nothing else touches a directory's contents or re-uses its names before the stream has drained.
+    Returns (init ops, [burst, burst, ...])"""
+    init = [("mkdir", "W/d"), ("create", "W/d/a"), ("mkdir", "O/d"), ("mkdir", "O/d/dd"), ("create", "O/d/dd/b"), ("create", "W/b")]
+    bursts = []
+    used = 0
+    for _ in range(n):
+        k = r.random()
+        used += 1
+        x = "n%d" % used
+        if k < 0.25:        # nested burst: mkdir -p with content
+            bursts.append([("mkdir", f"W/{x}"), ("mkdir", f"W/{x}/dd"), ("create", f"W/{x}/a"), ("create", f"W/{x}/dd/b"),
+                           ("mkdir", f"W/{x}/dd/d")])
+        elif k < 0.45:      # created and immediately renamed; once drained, used
+            bursts.append([("mkdir", f"W/{x}"), ("rename", f"W/{x}", f"W/{x}r")])
+            bursts.append([("create", f"W/{x}r/a"), ("mkdir", f"W/{x}r/dd"), ("create", "W/d/" + x)])
+        elif k < 0.6:       # arrives from outside and is renamed again right away
+            bursts.append([("mkdir", f"O/{x}"), ("mkdir", f"O/{x}/dd"), ("create", f"O/{x}/a")])
+            bursts.append([("rename", f"O/{x}", f"W/{x}"), ("rename", f"W/{x}", f"W/{x}r")])
+            bursts.append([("create", f"W/{x}r/b"), ("create", f"W/{x}r/dd/b"), ("write", f"W/{x}r/a")])
+        elif k < 0.75:      # an existing directory tree renamed twice in a row (its contents untouched)
+            bursts.append([("mkdir", f"W/{x}"), ("mkdir", f"W/{x}/dd")])
+            bursts.append([("rename", f"W/{x}", f"W/{x}r"), ("rename", f"W/{x}r", f"W/{x}s")])
+            bursts.append([("create", f"W/{x}s/b"), ("create", f"W/{x}s/dd/b")])
+        else:               # file storm in directories that are at rest
+            ops = []
+            for i in range(r.randint(4, 12)):
+                f = f"W/f{used}_{i % 3}"
+                ops += [r.choice([("create", f), ("write", f), ("chmod", f), ("rename", f, f + "m"), ("unlink", f),
+                                  ("rename", f + "m", f), ("create", f"W/d/{x}{i % 2}"), ("unlink", f"W/d/{x}{i % 2}")])]
+            bursts.append(ops)
+    return init, bursts
+
+
+def run_bursts(init_ops, bursts, recursive=True, full=False, small_reads=False, vanish_at=None):
+    """every burst is issued while the reader is held off; returns the delivered events per burst, the trees and probes"""
+    r = Run(recursive, full, False, small_reads=small_reads, vanish_at=vanish_at)
+    try:
+        for op in init_ops:
+            r.uni.apply(op)
+        initial_tree = r.uni.tree("W")
+        initial_outside = r.uni.tree("O")
+        r.start()
+        r.reader_lock()
+        per, applied_all, timeout = [], [], False
+        for b in bursts:
+            applied, evs = r.burst(b)
+            applied_all.append(applied)
+            if evs is None:
+                timeout = True
+                break
+            per.append(evs)
+        tree = r.uni.tree("W") if r.root_exists() else {}
+        probe_results = []
+        if r.root_exists() and not timeout:
+            for d in ["W"] + sorted(p for p, k in tree.items() if k == "d"):
+                pr = f"{d}/__probe"
+                ok, evs = r.step(("create", pr))
+                seen = evs is not None and any(c == "FileCreatedEvent" and s == pr for c, s, _d, _y in evs)
+                probe_results.append((d, d.count("/"), seen))
+                r.step(("unlink", pr))
+        return {"per_op": per, "applied": applied_all, "tree": tree, "initial_tree": initial_tree, "timeout": timeout,
+                "thread_errors": list(r.thread_errors), "probes": probe_results, "vanished": list(r.vanished),
+                "root_gone": not r.root_exists(), "initial_outside": initial_outside}
+    finally:
+        r.stop()
+
+
+def creations(applied_bursts, initial_tree, initial_outside):
+    """how often the history created (or brought into the tree) each path - an upper bound for created events"""
+    tree = dict(initial_tree)
+    outside = dict(initial_outside)
+    count = {}
+
+    def bump(p):
+        count[p] = count.get(p, 0) + 1
+
+    for b in applied_bursts:
+        for op in b:
+            k = op[0]
+            if k in ("create", "mkdir"):
+                (tree if op[1].startswith("W/") else outside)[op[1]] = "f" if k == "create" else "d"
+                if op[1].startswith("W/"):
+                    bump(op[1])
+            elif k in ("unlink", "rmdir"):
+                tree.pop(op[1], None)
+                outside.pop(op[1], None)
+            elif k == "rmtree":
+                for q in [q for q in tree if q == op[1] or q.startswith(op[1] + "/")]:
+                    del tree[q]
+            elif k == "rename":
+                s_, d_ = op[1], op[2]
+                src_t = tree if s_.startswith("W/") else outside
+                dst_t = tree if d_.startswith("W/") else outside
+                moved = {q: v for q, v in src_t.items() if q == s_ or q.startswith(s_ + "/")}
+                for q in moved:
+                    del src_t[q]
+                for q, v in moved.items():
+                    nq = d_ + q[len(s_):]
+                    dst_t[nq] = v
+                    if d_.startswith("W/"):
+                        bump(nq)
+    return count
